@@ -169,6 +169,43 @@ Theorem C19_teardown_no_release_while_server_alive :
 Proof. exact (conj gen_teardown_safe old_teardown_window). Qed.
 Print Assumptions C19_teardown_no_release_while_server_alive.
 
+(* ---- the serializer behind /simulation (and copy / save / diff) is read-only on the trajectory state: its regenerated cross-file
+   effect set is exactly {message buffer (error path), SEI constants recomputed by reb_integrator_init, the BS N-body ODE slot,
+   ri_ias15.N_allocated}; the only store in the function itself is the IAS15 compression, whose source text is pinned *)
+Theorem C19_serializer_effects :
+  serializer_effects =
+  ["extptr:messages:free"; "extptr:messages:strcpy"; "field:N_odes"; "field:messages"; "field:ri_ias15.N_allocated";
+   "field:ri_sei.OMEGAZ"; "field:ri_sei.lastdt"; "field:ri_sei.sindt"; "field:ri_sei.sindtz"; "field:ri_sei.tandt"; "field:ri_sei.tandtz";
+   "via:messages"; "via:odes"] /\
+  binary_diff_effects = [] /\
+  serializer_unconditional_stores = 0 /\
+  serializer_stores = [("r->ri_ias15.N_allocated > 3 * r->N", "r->ri_ias15.N_allocated", "3 * r->N")] /\
+  ias15_alloc_stores = [("reb_integrator_ias15_alloc", "N3 > r->ri_ias15.N_allocated", "N3")] /\
+  ias15_N3_values = ["3 * r->N"; "3 * r->ri_mercurius.encounter_N"; "3 * r->ri_trace.encounter_N"].
+Proof. exact gen_serializer_effects. Qed.
+Print Assumptions C19_serializer_effects.
+
+(* that store is ias15_compress (model compared with the library on every run): it never raises N_allocated, never takes it below the
+   3*N the next step needs, is idempotent, and leaves the step's "re-allocate and zero the arrays" decision (N3 > N_allocated, for every N3 the
+   source can demand: 3*N, or 3*encounter_N <= 3*N under MERCURIUS / TRACE; texts pinned above) unchanged; compressing to the
+   number of real particles instead (N - N_var) would flip that decision *)
+Theorem C19_ias15_compression_invisible : forall a n,
+  ias15_compress a n <= a /\ (3 * n <= a -> 3 * n <= ias15_compress a n) /\
+  ias15_compress (ias15_compress a n) n = ias15_compress a n /\
+  ias15_step_reallocates (ias15_compress a n) n = ias15_step_reallocates a n /\
+  (forall n3, n3 <= 3 * n -> Nat.ltb (ias15_compress a n) n3 = Nat.ltb a n3).
+Proof.
+  exact (fun a n => conj (ias15_compress_le a n) (conj (ias15_compress_keeps_needed a n)
+                    (conj (ias15_compress_idempotent a n) (conj (ias15_compress_invisible a n) (ias15_compress_invisible_n3 a n))))).
+Qed.
+Print Assumptions C19_ias15_compression_invisible.
+
+Theorem C19_compress_to_real_particles_is_visible : exists a n nvar,
+  let a' := if Nat.ltb (3 * (n - nvar)) a then 3 * (n - nvar) else a in
+  ias15_step_reallocates a n = false /\ ias15_step_reallocates a' n = true.
+Proof. exact wrong_compress_visible. Qed.
+Print Assumptions C19_compress_to_real_particles_is_visible.
+
 (* the request loop closes every connection descriptor exactly once (no fclose(fdopen(fd)) followed by close(fd)) *)
 Theorem C19_server_closes_each_descriptor_once : server_double_close_sites = 0.
 Proof. exact gen_server_single_close. Qed.
